@@ -62,6 +62,28 @@ def execute_run(desc: dict, deviations: dict[int, str] | None = None, *, want: t
         fatal["detail"] = detail
         raise S.SimDeadlock(detail) if kind == "deadlock" else S.SimCapExceeded(detail)
 
+    prefix = desc.get("prefix")
+    if prefix is not None:
+        # warm-cache history (C13): a recorded prefix run over a different universe in the same process image;
+        # only process-global state (caches, registries) survives into the main run
+        pdesc = dict(prefix)
+        pdesc.setdefault("profile", "smoke")
+        W.reset_process_state(pdesc)
+        pu = Universe(pdesc["universe"])
+        pp = Peer(pu, pdesc.get("behaviour"))
+        psched = make_scheduler(pdesc, None, on_fatal)
+        pctx = W.RunContext(desc=pdesc, universe=pu, peer=pp, sched=psched)
+        net.PEER = pp
+        net.NETLOG = pctx.netlog
+        S.ACTIVE = psched
+        psched.adopt_current_thread("main")
+        try:
+            W.run_engine(pctx)
+            psched.drain()
+        finally:
+            psched.finished = True
+            S.ACTIVE = None
+        result["prefix_events"] = len(pctx.delivered)
     W.reset_process_state(desc)
     universe = Universe(desc["universe"])
     peer = Peer(universe, desc.get("behaviour"))
